@@ -50,6 +50,7 @@ type Env struct {
 	split     bool         // directly inside an outermost assumed universal (Skolem form stated separately)
 	univ      []univBinder // enclosing assumed universal binders (for Skolem functions)
 	noSkolem  bool         // some enclosing quantifier is not an assumed universal
+	atInstr   ssa.Instruction // set with block by before()/after(): names are resolved as of this instruction (assignments earlier in its block count)
 	noLocals  bool         // inside before()/after() of a site no path to here has executed: local names denote unconstrained values
 	fieldHint string       // the identifier being resolved is the base of a selection of this field (tells same-named locals apart)
 }
@@ -232,7 +233,10 @@ func (vc *FuncVC) lookupIdent(env *Env, name string) *CVal {
 			if env.block != nil {
 				blk = env.block
 			}
-			if v := vc.debugValue(name, blk, env.st); v != nil {
+			vc.nameLimit = env.atInstr
+			v := vc.debugValue(name, blk, env.st)
+			vc.nameLimit = nil
+			if v != nil {
 				return v
 			}
 		}
@@ -379,6 +383,10 @@ func (vc *FuncVC) debugValue(name string, b *ssa.BasicBlock, st *State) *CVal {
 	if b == nil {
 		return nil
 	}
+	limit := vc.nameLimit
+	if limit != nil && limit.Block() != b {
+		limit = nil
+	}
 	var best *ssa.DebugRef
 	// an address-taken local variable: its address is the allocation, valid wherever
 	// the allocation dominates
@@ -457,7 +465,15 @@ func (vc *FuncVC) debugValue(name string, b *ssa.BasicBlock, st *State) *CVal {
 	}
 	for _, d := range vc.debugRefs[name] {
 		db := d.Block()
-		if db == b || !db.Dominates(b) || isDeclaringRef(d) {
+		if isDeclaringRef(d) {
+			continue
+		}
+		if db == b {
+			// the same block: only what precedes the instruction the name is resolved at
+			if limit == nil || instrIndex(d) >= instrIndex(limit) {
+				continue
+			}
+		} else if !db.Dominates(b) {
 			continue
 		}
 		// a variable of the same name declared in another scope (another case of a switch) is not this one
@@ -493,7 +509,7 @@ func (vc *FuncVC) debugValue(name string, b *ssa.BasicBlock, st *State) *CVal {
 			}
 		}
 	}
-	if bestPhi != nil && (best == nil || best.Block().Dominates(bestPhi.Block())) {
+	if bestPhi != nil && (best == nil || (best.Block() != bestPhi.Block() && best.Block().Dominates(bestPhi.Block())) || (best.Block() == bestPhi.Block() && limit == nil)) {
 		if _, ok := vc.vals[bestPhi]; ok {
 			return vc.fromVal(vc.val(bestPhi), bestPhi.Type())
 		}
@@ -1192,6 +1208,14 @@ func (vc *FuncVC) evalCall(env *Env, x *ECall) *CVal {
 			if site >= len(stat) {
 				panic(fmt.Errorf("%s(%s, %d, …): the watch matches %d call site(s)", name, id.Name, site, len(stat)))
 			}
+			if os.Getenv("GOVC_DEBUG") != "" {
+				for i, in := range stat {
+					fmt.Fprintf(os.Stderr, "static site %s %d: %v block %d\n", id.Name, i, vc.Fn.Prog.Fset.Position(in.Pos()), in.Block().Index)
+				}
+				for i, in := range vc.callInstr[id.Name] {
+					fmt.Fprintf(os.Stderr, "dynamic site %s %d: %v block %d\n", id.Name, i, vc.Fn.Prog.Fset.Position(in.Pos()), in.Block().Index)
+				}
+			}
 			dyn := len(sts) // not executed on any path to here
 			for j, in := range vc.callInstr[id.Name] {
 				if in == stat[site] && j < len(sts) {
@@ -1222,6 +1246,9 @@ func (vc *FuncVC) evalCall(env *Env, x *ECall) *CVal {
 				}
 				n.block = bs[site]
 				n.loop = nil
+				if is := vc.callInstr[id.Name]; site < len(is) {
+					n.atInstr = is[site]
+				}
 			}
 		}
 		if n.logSt == nil {
